@@ -29,14 +29,17 @@ def run(tier, seed, replay=None):
             t = R.rng.choice(declgen.TRAITS)
             messy = R.rng.choice([0.0, 0.2, 0.5, 0.9])
             raw.append({"trait": t, "src": declgen.gen_decl(R.rng, t, messy), "messy": messy})
+    import panic_sites
+    known_sites, unknown_sites, vanished = panic_sites.check()
+    if unknown_sites and not replay:
+        R.violation("panic-site-inventory", "panic sites in /repo that the totality model does not know (gen/panic_sites.json): %s"
+                    % json.dumps(unknown_sites)[:900],
+                    {"failed": "panic-site inventory for C06_outcome_exclusive", "unknown_sites": unknown_sites}, found_input=False)
     keep, results, unparsed = derivelib.run_derive_cases(R, raw)
     if keep is None:
         return R.finish()
-    terms = ["(%s, %s)" % (cstr(c["trait"]), derivelib.c_derive_obs(results[c["id"]])) for c in keep]
-    runner = ("report (map (fun ic : N * (string * derive_obs) => (fst ic, true, holds06 (fst (snd ic)) (snd (snd ic)))) "
-              "(combine (map N.of_nat (seq 0 (List.length %s))) %s))")
-    bad, errors = vlib.coq_eval(prop, derivelib.HEADER_DERIVE, terms, runner.replace("%s", "{L}").replace("{L}", "%s", 1).replace("{L}", "CS"),
-                                shard=400) if False else coq_eval2(prop, terms)
+    terms = [derivelib.c_case_derive(c, results[c["id"]]) for c in keep]
+    bad, errors = vlib.coq_eval(prop, derivelib.HEADER_DERIVE, terms, "run_derive holds06c %s", shard=150)
 
     def key(i):
         r = results[keep[i]["id"]]
@@ -47,7 +50,7 @@ def run(tier, seed, replay=None):
     vlib.decide(R, terms, bad, errors,
                 describe=lambda i: "derive(%s) on `%s`: %s" % (keep[i]["trait"], keep[i]["src"],
                                                                json.dumps({k: v for k, v in results[keep[i]["id"]].items() if k in ("panic", "diags")})[:300]),
-                model_body="Eval vm_compute in (holds06 (fst c) (snd c)).",
+                model_body="Eval vm_compute in (match model_derive c with Accepted _ _ => (true, []) | Rejected es => (false, diags_of es) end).",
                 key_fn=key, size_fn=lambda i: len(keep[i]["src"]),
                 header=derivelib.HEADER_DERIVE, results=results, cases=keep,
                 failed_holds="holds06 (Exec/DeriveObs.v): exactly one impl of the requested trait xor >= 1 diagnostics, no panic",
@@ -67,15 +70,12 @@ def run(tier, seed, replay=None):
                 "names, literal items, repetitions, bare / name-value / brace / bracket forms and arbitrary token trees; each through the six "
                 "derives called as functions under catch_unwind; non-trivial = has a darling attribute",
         "samples": [keep[i] for i in (0, len(keep) // 3, len(keep) // 2, len(keep) - 1) if i < len(keep)],
-        "distribution": {"outcomes": outcomes, "per_trait": per_trait, "sources_rejected_by_syn": unparsed},
+        "distribution": {"outcomes": outcomes, "per_trait": per_trait, "sources_rejected_by_syn": unparsed,
+                         "panic_sites_inventoried": known_sites, "panic_sites_unknown": len(unknown_sites),
+                         "panic_sites_removed_since_inventory": len(vanished)},
     })
     R.assumptions = ["panics inside syn / quote / proc-macro2 themselves are outside the model (sampled only)",
                      "the proc-macro entry points of darling_macro are thin wrappers over darling_core::derive::* (read, not run)"]
     return R.finish()
 
 
-def coq_eval2(prop, terms):
-    runner = ("report (map (fun ic : N * (string * derive_obs) => (fst ic, true, holds06 (fst (snd ic)) (snd (snd ic)))) "
-              "(combine (map N.of_nat (seq 0 (List.length CASES))) CASES))")
-    # vlib.coq_eval substitutes the case list once; bind it first
-    return vlib.coq_eval(prop, derivelib.HEADER_DERIVE, terms, "let CASES := %s in " + runner, shard=400)
